@@ -182,12 +182,16 @@ def apply_op(root, op, state):
             f.write_text("\n".join(ls))
     elif kind == "exclude":
         state["exclude"] = [] if state["exclude"] else ["sub"]
-    elif kind in ("cache-other-version", "cache-bad-checksum"):
+    elif kind in ("cache-other-version", "cache-bad-checksum", "cache-no-version", "cache-null-version"):
         cp = Path(root) / ".codelimit_cache" / "codelimit.json"
         if cp.exists():
             d = json.loads(cp.read_text())
             if kind == "cache-other-version":
                 d["version"] = "0.0.1"
+            if kind == "cache-no-version":
+                d.pop("version", None)
+            if kind == "cache-null-version":
+                d["version"] = None
             for k, v in d["codebase"]["files"].items():
                 if kind == "cache-bad-checksum":
                     v["checksum"] = "0" * 32
@@ -201,7 +205,7 @@ def c09_sequences(tier, rnd):
     paths = ["a.py", "b.js", "sub/c.py"]
     ops = [("write", "a.py", "long"), ("write", "a.py", "other"), ("write", "sub/c.py", "short"), ("delete", "a.py"), ("rename", "a.py", "d.py"),
            ("rename", "b.js", "b.py"), ("touch", "b.js"), ("swap", "a.py", "sub/c.py"), ("exclude",), ("cache-other-version",),
-           ("cache-bad-checksum",), ("write", "b.js", "long"), ("delete", "sub/c.py"),
+           ("cache-bad-checksum",), ("cache-no-version",), ("cache-null-version",), ("write", "b.js", "long"), ("delete", "sub/c.py"),
            ("layout", "sub/c.py", "blank-top"), ("layout", "a.py", "ws-line"), ("layout", "b.js", "trailing")]
     seqs = [[o] for o in ops]
     seqs += [list(c) for c in itertools.permutations(ops, 2)][:: (3 if tier == "quick" else 1)]
@@ -532,6 +536,10 @@ def run_c12(tmp, tier, rnd):
         # a non-UTF-8 (Latin-1) source with a long function, and a malformed one
         (root / "latin.py").write_bytes(("# caf\xe9\n" + body("py", "latin", 40)).encode("latin-1"))
         (root / "broken.js").write_text("function f( {\n" + "x;\n" * 40)
+        # functions just over the threshold in files without a final newline (31 lines, 30 newline characters)
+        (root / "edge31.py").write_text(body("py", "edge", 31).rstrip("\n"))
+        (root / "edge31.js").write_text(body("js", "edge", 31).rstrip("\n"))
+        (root / "edge61.c").write_text(body("c", "edge", 61).rstrip("\n"))
         (root / ".gitignore").write_text("\n".join(ex) + "\n")
         set_excludes([])
         with cwd(root):
@@ -620,6 +628,83 @@ def run_c03_paths(tmp, tier, rnd):
         scan(root)
     except BaseException as e:  # noqa
         fails.append(("scan-" + type(e).__name__, f"scan of a tree with non-UTF-8/binary sources: {type(e).__name__}: {str(e)[:100]}", None))
+    return fails, n
+
+
+# ------------------------------------------------------------------------------------------- C02 (the check command as a whole)
+def run_check_printed(paths, quiet_flag):
+    """real check_command with everything it prints captured; returns (exit code, printed text)"""
+    import typer
+    from codelimit.commands.check import check_command
+    with quiet() as buf:
+        try:
+            check_command([Path(p) for p in paths], quiet_flag)
+            code = None
+        except typer.Exit as e:
+            code = e.exit_code
+    return code, buf.getvalue()
+
+
+def run_c02(tmp, tier, rnd):
+    """files holding one function of a boundary length each; check is given one or several paths in every order, with and
+    without --quiet: exit status, listed functions, summary count and silence against the statement"""
+    import re
+    fails, n = [], 0
+    root = Path(tmp) / "w2"
+    lengths = {"f15.py": 15, "f16.js": 16, "f30.c": 30, "f31.py": 31, "f60.js": 60, "f61.c": 61, "f90.py": 90, "g31.ts": 31}
+    root.mkdir(parents=True)
+    for nm, ln in lengths.items():
+        (root / nm).write_text(body(nm.rsplit(".", 1)[-1], "fn_" + nm.split(".")[0], ln))
+    for d, names in (("hard", ["f31.py", "f60.js"]), ("bad", ["f61.c", "f15.py"]), ("fine", ["f15.py", "f30.c"])):
+        (root / d).mkdir()
+        for nm in names:
+            shutil.copy(root / nm, root / d / nm)
+    dirs = {"hard": [31, 60], "bad": [61, 15], "fine": [15, 30]}
+    set_excludes([])
+    units = list(lengths) + list(dirs)
+    combos = [[u] for u in units]
+    combos += [list(c) for c in itertools.permutations(units, 2)][:: (2 if tier == "quick" else 1)]
+    for _ in range(20 if tier == "quick" else 300):
+        combos.append(rnd.sample(units, rnd.randint(3, 5)))
+    with cwd(root):
+        for combo in combos:
+            ls = []
+            for u in combo:
+                ls += dirs[u] if u in dirs else [lengths[u]]
+            for qf in (False, True):
+                n += 1
+                try:
+                    code, text = run_check_printed(combo, qf)
+                except Exception as e:  # noqa
+                    fails.append(("exception", f"check {combo} quiet={qf}: {type(e).__name__}: {str(e)[:100]}", None))
+                    continue
+                want_code = 1 if any(x > 60 for x in ls) else 0
+                if code != want_code:
+                    fails.append(("exit-status", f"check {' '.join(combo)} (lengths {ls}): exit {code}, expected {want_code}", None))
+                want_listed = sorted(x for x in ls if x > 30)
+                if want_listed and not any(str(x) in text for x in want_listed):
+                    fails.append(("listing", f"check {' '.join(combo)} quiet={qf}: functions of lengths {want_listed} not listed in {text[-200:]!r}", None))
+                m = re.search(r"(\d+) functions? need", text)
+                if want_listed:
+                    if not m or int(m.group(1)) != len(want_listed):
+                        fails.append(("summary-count", f"check {' '.join(combo)} quiet={qf}: summary {m.group(0) if m else None!r}, "
+                                      f"expected {len(want_listed)} functions (lengths {ls})", None))
+                    for x in want_listed:
+                        if text.count(f"fn_") < len(want_listed):
+                            fails.append(("listing", f"check {' '.join(combo)} quiet={qf}: {text.count('fn_')} functions listed, expected "
+                                          f"{len(want_listed)} (lengths {ls})", None))
+                            break
+                else:
+                    if m:
+                        fails.append(("summary-count", f"check {' '.join(combo)}: claims {m.group(0)!r} but no function is longer than 30", None))
+                    if "fn_" in text:
+                        fails.append(("listing", f"check {' '.join(combo)}: lists a function although none is longer than 30: {text[:200]!r}", None))
+                    if qf and text.strip():
+                        fails.append(("quiet", f"check --quiet {' '.join(combo)} printed {text[:120]!r} although nothing needs refactoring", None))
+                if not qf and not text.strip():
+                    fails.append(("quiet", f"check {' '.join(combo)} printed nothing without --quiet", None))
+                if qf and want_listed and not text.strip():
+                    fails.append(("quiet", f"check --quiet {' '.join(combo)} printed nothing although {want_listed} need refactoring", None))
     return fails, n
 
 
@@ -817,8 +902,8 @@ def main():
                 if seen[kind] <= 2:
                     out["failures"].append({"name": f"C10:{kind}", "what": what + (f" (+ more of this kind)" if seen[kind] == 2 else ""), "case": name, "tags": []})
             out["samples"] = [{"faults": "missing, empty, truncated at byte offsets, non-JSON, missing key / wrong type at every level, directory without file/markers"}]
-        elif prop in ("C11", "C12", "C06", "C03", "C04"):
-            fn = {"C11": run_c11, "C12": run_c12, "C06": run_c06, "C03": run_c03_paths, "C04": run_c04}[prop]
+        elif prop in ("C11", "C12", "C06", "C03", "C04", "C02"):
+            fn = {"C11": run_c11, "C12": run_c12, "C06": run_c06, "C03": run_c03_paths, "C04": run_c04, "C02": run_c02}[prop]
             fs, n = fn(tmp, tier, rnd)
             out["evaluations"] = out["distinct_nontrivial"] = n
             seen = {}
